@@ -272,6 +272,8 @@ structure JSt where
   links : List (Path × Path) := []
   /-- a stepped pass is running: table and listing at `passbegin`, keys notified / touched since -/
   pass : Option (List Row × FS × List Path × List Path) := none
+  /-- the maximum age when the stepped pass began (the pass works with that snapshot) -/
+  passAge : Option Nat := none
 
 /-- where a name physically lives: the resolved path; for a name that does not resolve, its resolved
 directory plus the name; the literal path when not even the directory resolves -/
@@ -583,10 +585,13 @@ def judgePassDelta (st : JSt) (root : Path) (I0 I I' : List Row) (F F' : FS) (cr
   | some k => throw s!"[race-unselected-file-deleted] {showPath k} was deleted but is not the file of any row recorded since the pass began"
   | none => pure ()
   let R := I.filter (fun r => !I'.contains r)
-  match R.find? (fun r => createdKeys.contains r.rel) with
+  -- a row reported while the pass ran can only have been selected *after* the report by the age selection
+  -- (the size selection is over when `passbegin` returns): if it is not too old, it was selected before
+  let cutoff : Option Nat := st.passAge.map (vnow - ·)
+  let aged (r : Row) : Bool := match cutoff with | some c => decide (r.atime < c) | none => false
+  match R.find? (fun r => createdKeys.contains r.rel && !aged r) with
   | some r => throw s!"[race-recreated-file-deleted] {showRel r.rel} was reported as created while the pass was running (after the selection); the pass then deleted the new file and forgot the new row although it is the most recently used one"
   | none => pure ()
-  let _ := st
   pure ()
 
 /-- bookkeeping = disk after quiescence, for the rows of the table at `passbegin` whose key was neither
@@ -611,7 +616,7 @@ def judgePassOp (st : JSt) (w : String) (o : Obs) : Except String JSt := do
   | some root, some I, some I' =>
     if w = "passbegin" then
       if o.inv != st.inv ∨ fsKeys o.fs != fsKeys st.fs then throw "[pass] the selection changed the state"
-      return { st' with pass := some (I, st.fs, [], []) }
+      return { st' with pass := some (I, st.fs, [], []), passAge := st.maxAge }
     match st.pass with
     | none => throw "[harness] pass op without a running pass"
     | some (I0, F0, touched, createdKeys) =>
